@@ -1357,6 +1357,13 @@ class View:
         limit = self.res.max_retries
         exhausted = limit is not None and any(v >= limit for v in self.res.versions.values())
         first = refused[0] if refused else None
+        # exceptions handed to recover() that are neither job failures nor refusals: errors inside the
+        # recovery machinery itself (they are retried like job failures, up to RecursionError / exhaustion)
+        internal = sorted(
+            {e["exc"] for e in self.recoveries} - {"WorkflowExecutionException", "FailureHandlingException", "RecursionError"}
+        )
+        if internal:
+            return "raised:internal-error:" + "+".join(internal)
         if first is not None and first["why"].startswith("FAILED Job") and "Execution aborted" in first["why"]:
             return "raised:retries-exhausted" if exhausted else "raised:refused-below-limit"
         if first is not None and first["outcome"] == "RecursionError":
